@@ -30,7 +30,12 @@ RULE = ('C01-grammar scripts (structured random ASTs incl. zero equations, verba
         'converter outputs, code, verbatim blocks and names containing the template field tokens {lags} {errors} ... and doubled braces.')
 TRUSTED = ['extraction of the parser and class-building models to OCaml (ExtrOcamlBasic + ExtrOcamlString only) and coq/Extract/Build/driver.ml',
            'harness/build_common.py (driver runner; Python twins of the converters of BuildDef.v)', "CPython's exec of the generated class text (observed)"]
-ASSUMPTIONS = ['strings are Latin-1; options are built-in ints or None',
+ASSUMPTIONS = ['K_text compares the whole class text byte for byte and K_exec every attribute: stricter than the property (which constrains '
+               'lists, lengths, evaluation and the converter contract); a docstring edit of one template, a new hint form, another field order or '
+               'text after {equations} break C15_templates_agree_modulo_hints / C15_template_fields at compile time — such a change is reported '
+               'as a broken proof (no-failing-input-found unless the oracle fails too)',
+               'for every clause but the namespace one the harness executes texts in a namespace with BaseModel, np, Any, List, Optional',
+               'strings are Latin-1; options are built-in ints or None',
                "behavioural identity of the executed classes (annotations without runtime effect, exec deterministic) is CPython's: it is observed "
                'on class attributes, on _evaluate results over random data and on solve() of equation-free models, not proved',
                'the converter is any state-passing function; K runs six concrete converters']
@@ -38,6 +43,8 @@ EXHAUSTIVE = {'quick': False, 'thorough': False}
 CASE_TIMEOUT = 60
 SOURCES = ['parser.py']
 CONVS = ['default', 'code', 'wrap', 'count', 'empty', 'fields']
+SIG_NAMESPACE = 'C15|exec-of-text|namespace-needs-typing-names'
+SIG_NP = 'C15|exec-of-text|namespace-needs-np'
 ATTRS = ('ENDOGENOUS', 'EXOGENOUS', 'PARAMETERS', 'ERRORS', 'NAMES', 'CHECK', 'LAGS', 'LEADS')
 PREFIX = ' ' * 8
 
@@ -84,15 +91,29 @@ def _attrs(cls):
 
 
 def _evaluate(cls, seed, lags, leads):
-    """values of every variable after one _evaluate at a feasible period, on data derived from `seed`"""
-    rng = random.Random(seed)
-    n = 12                                   # offsets of the generated arithmetic scripts lie in -3..3: t = 5 is always feasible,
-    m = cls(list(range(n)))                  # whatever explicit lags= / leads= were imposed
-    for name in m.names:
-        m[name] = [round(rng.uniform(-2, 2), 3) for _ in range(n)]
-    t = 5
-    m._evaluate(t)
-    return {name: [lib.fhex(float(x)) for x in m[name]] for name in m.names}
+    """values of every variable after _evaluate at several periods — the first and last at which offsets in -3..3 stay
+    inside a span of 12 (boundary periods) and one in the middle — two passes each, on finite data and on data with
+    NaN / inf / -inf / -0.0, with and without the keyword arguments of the generated signature"""
+    import numpy as np
+    out = {}
+    for kind in ('finite', 'special'):
+        rng = random.Random(seed if kind == 'finite' else seed + 1)
+        n = 12
+        m = cls(list(range(n)))
+        for name in m.names:
+            vals = [round(rng.uniform(-2, 2), 3) for _ in range(n)]
+            if kind == 'special':
+                for k in rng.sample(range(n), 4):
+                    vals[k] = rng.choice([float('nan'), float('inf'), float('-inf'), -0.0, 0.0, 1e308])
+            m[name] = vals
+        with np.errstate(all='ignore'):
+            for t in (3, 5, 8):
+                m.solve_t_before(t)
+                m._evaluate(t)
+                m._evaluate(t, errors='ignore', catch_first_error=False, iteration=2)
+                m.solve_t_after(t, errors='skip', iteration=None)
+        out[kind] = {name: [lib.fhex(float(x)) for x in m[name]] for name in m.names}
+    return out
 
 
 def impl(case):
@@ -145,7 +166,9 @@ def impl_one(case, shared):
     o['calls'] = [[s.name, s.type.name] for s in lg.calls]
     o['count'] = lg.f.n if kind == 'count' else 0
     block = '\n\n'.join(textwrap.indent(r, PREFIX) for r in lg.returned)
-    o['block_verbatim'] = text.endswith(block if len(block) else PREFIX + 'pass')
+    want_block = block if len(block) else PREFIX + 'pass'
+    # the block is the end of the text (a trailing newline after it would be harmless)
+    o['block_verbatim'] = want_block in text and text.rstrip('\n').endswith(want_block.rstrip('\n'))
     o['block_empty'] = len(block) == 0
     o['block'] = pc.hx(block if len(block) else PREFIX + 'pass')
     o['emitting'] = [[s.name, s.type.name] for s in syms if s.type in (fsic.parser.Type.ENDOGENOUS, fsic.parser.Type.VERBATIM)
@@ -195,6 +218,29 @@ def impl_one(case, shared):
             o['exec_other_exc'] = err
         else:
             ways['exec_other'] = c
+    # by the letter of the property: a namespace that provides BaseModel and nothing else
+    bare = {}
+    for label, t in (('text', text), ('other', other)):
+        if t is None:
+            continue
+        ns = {'BaseModel': fsic.BaseModel}
+        try:
+            exec(t, ns)
+            bare[label] = 'ok'
+            if 'np.' in t and case.get('script') is not None and ns.get('Model') is not None:
+                try:
+                    mm = ns['Model'](list(range(12)))
+                    mm._evaluate(5)
+                    bare[label + '_eval'] = 'ok'
+                except NameError as e:
+                    bare[label + '_eval'] = 'NameError:' + str(getattr(e, 'name', ''))
+                except BaseException as e:      # noqa: BLE001
+                    bare[label + '_eval'] = type(e).__name__
+        except NameError as e:
+            bare[label] = 'NameError:' + str(getattr(e, 'name', ''))
+        except BaseException as e:      # noqa: BLE001
+            bare[label] = type(e).__name__
+    o['bare'] = bare
     o['attrs'] = {k: _attrs(v) for k, v in ways.items() if v is not None}
     o['missing_model'] = [k for k, v in ways.items() if v is None]
     if case.get('safe') and ways and all(v is not None for v in ways.values()):
@@ -346,6 +392,22 @@ def oracle_one(case, o):
         if not o['sym'] and not case['opts']:
             if any(ref[a] for a in ('ENDOGENOUS', 'EXOGENOUS', 'PARAMETERS', 'ERRORS')) or ref['LAGS'] != 0 or ref['LEADS'] != 0 or not o['block_empty']:
                 out.append(_f('empty-symbols', 'attrs', 'the empty symbol list does not give the empty model'))
+    # a namespace that provides BaseModel alone: the untyped text must execute in it whenever it executes at all; the typed text
+    # needs List / Optional / Any (known finding); code that uses exp / log needs np when evaluated (known finding)
+    bare = o.get('bare', {})
+    typed_label, untyped_label = ('text', 'other') if case['hints'] else ('other', 'text')
+    full_ok = {'text': 'exec_text_exc' not in o, 'other': 'exec_other_exc' not in o}
+    if full_ok[untyped_label] and bare.get(untyped_label) not in (None, 'ok'):
+        out.append(_f('exec-of-text', 'untyped-needs-more-than-BaseModel:' + bare[untyped_label],
+                      'the untyped text does not execute in a namespace with BaseModel alone: %s' % bare[untyped_label]))
+    if full_ok[typed_label] and bare.get(typed_label) not in (None, 'ok'):
+        if bare[typed_label] in ('NameError:List', 'NameError:Optional', 'NameError:Any'):
+            out.append({'sig': SIG_NAMESPACE, 'what': 'the typed text does not execute in a namespace that provides BaseModel alone (%s)' % bare[typed_label]})
+        else:
+            out.append(_f('exec-of-text', 'typed:' + bare[typed_label], 'the typed text fails in a namespace with BaseModel alone: %s' % bare[typed_label]))
+    for lab in ('text_eval', 'other_eval'):
+        if bare.get(lab) == 'NameError:np':
+            out.append({'sig': SIG_NP, 'what': 'evaluating a model whose code uses exp / log needs `np` in the namespace the text was executed in'})
     vals = o.get('values')
     if vals:
         r = vals.get('exec_text')
@@ -456,7 +518,7 @@ SYMBOL_LISTS = [
     [S('X', 'EXOGENOUS'), S('Y', 'ENDOGENOUS', 0, 0, 'Y[t] = 1', 'self._Y[t] = 1.0'), S('B', 'ENDOGENOUS', 0, 0, 'B[t] = (', 'x = (')],
     [S(None, 'VERBATIM', equation='`if True:`', code='if True:')],
 ]
-CORPUS = ['', '# nothing', 'Y = X', 'Y = C + I + G + X - M', 'C = {a} + {b} * Y[-1]\nY = C + <e>', 'Y = X[1] + X[-2]',
+CORPUS = ['', '# nothing', 'Y = X', 'Y = exp(X) + log(Z)', 'Y = C + I + G + X - M', 'C = {a} + {b} * Y[-1]\nY = C + <e>', 'Y = X[1] + X[-2]',
           '`foo = 1`', '```\nfoo = 1\nbar = 2\n```', 'Y = X\n```\nif True:\n    z = 1\n```\nZ = Y[-1]', 'Y = exp(X) + log(Z) + max(W, 1)',
           'Y = X if Z > 0 else W', "Y = X['2000']", 'Y = (X +\n     Z)']
 
